@@ -49,6 +49,9 @@ def valuecount(table, field, value, missing=None):
         total += 1
         if v == value:
             vs += 1
+    if total == 0:
+        # no rows, no occurrences
+        return 0, 0.
     return vs, float(vs)/total
 
 
